@@ -916,6 +916,13 @@ VmTrap vm_core_execute(VmState *vm) {
                 vm_release(&vm->heap, v);
             }
 
+            /* The frame took over the function value popped by CALL_INDIRECT /
+             * CLOSURE_CALL; give that reference back now that the call is over. */
+            if (frame->closure) {
+                vm_release(&vm->heap, val_closure(frame->closure));
+                frame->closure = NULL;
+            }
+
             /* Save the returning function's return_ip (points to instruction
              * after the CALL in the caller) before we pop the frame */
             uint32_t ret_ip = frame->return_ip;
@@ -1769,6 +1776,10 @@ VmTrap vm_core_execute(VmState *vm) {
         while (vm->stack_size > frame->stack_base) {
             NanoValue v = stack_pop(vm);
             vm_release(&vm->heap, v);
+        }
+        if (frame->closure) {
+            vm_release(&vm->heap, val_closure(frame->closure));
+            frame->closure = NULL;
         }
         vm->frame_count--;
         if (vm->frame_count == 0) {
